@@ -78,7 +78,8 @@ PROPS = {
         "technique": "closed-form trace oracle on monitor sinks (exhaustive small scope + sweeps)",
         "jobs": [dict(FSM_JOB),
                  {"pkg": "recorder-main", "test": "TestVerif_C01Pipe", "shards": (8, 16), "timeout": (300, 1800), "require": ["pipeline_connections", "motion_files", "throttled_connections", "test_recordings_overlapping_a_motion_recording"]},
-                 {"pkg": "throttle", "test": "TestVerif_ThrottleComposition", "shards": (16, 16), "timeout": (300, 2400), "require": ["composition_runs", "base_starts_checked", "mid_trigger_restarts"]}],
+                 {"pkg": "throttle", "test": "TestVerif_ThrottleComposition", "shards": (16, 16), "timeout": (300, 2400), "require": ["composition_runs", "base_starts_checked", "mid_trigger_restarts"]},
+                 {"pkg": "recorder-main", "test": "TestVerif_C11Warmup", "shards": (8, 16), "timeout": (300, 1200), "require": ["test_recordings_during_the_ffc_period"]}],
     },
     "C03": {
         "title": "Recording length: min-secs past the last motion, never more than max-secs",
@@ -179,13 +180,14 @@ PROPS = {
         "level_text": "Online suppression assertion on telemetry vs callback plus a paired-history comparator deciding independence from pre-FFC / pre-reset content.",
         "level_note": "Frames inside the FFC period may legitimately serve as comparison frames afterwards; only frames from before it are excluded by the property.",
         "technique": "online assertion + paired-execution comparator",
-        "jobs": [{"pkg": "motion", "test": "TestVerif_C09", "shards": (16, 16), "timeout": (300, 2400), "require": ["history_pairs", "suppressed_window_frames", "motion_frames_after_period", "pairs_with_reset", "pairs_with_ffc", "crafted_weight_pairs"]}],
+        "jobs": [{"pkg": "motion", "test": "TestVerif_C09", "shards": (16, 16), "timeout": (300, 2400), "require": ["history_pairs", "suppressed_window_frames", "motion_frames_after_period", "pairs_with_reset", "pairs_with_ffc", "crafted_weight_pairs"]},
+                 {"pkg": "recorder-main", "test": "TestVerif_C14Pipe", "race": True, "shards": (16, 16), "timeout": (600, 3000), "require": ["connections", "clear_markers", "clears_right_after_a_rejected_frame", "motion_files"]}],
     },
     "C10": {
         "title": "Only complete recordings ever bear the .cptv name; crashes leave no debris",
         "level": "fault_enumeration",
         "rule": "Scenarios through the real handleConn + CPTVFileRecorder in a child process (test binary re-executed): S1 one motion recording, S2 two back-to-back, S3 throttle cut, S4 test recording overlapping a motion recording, "
-                "S5 constant recorder on, S6 connection dropped in mid-frame (Stop path), S7 'clear' in mid-recording, S8 test recording and motion recording starting on the same frame, S9 throttle cut and restart within one trigger, S10 every start failing while the header is written, S11 the temporary names of the next 100 ms already taken when the motion recording starts S12 output directory and constant-recordings folder reached through symbolic links S13 an upload backlog of 3000 finished recordings in both directories S14 a relative output-dir with a working directory other than the configuration directory, S15 an output directory whose name contains pattern characters ('[', ']', '*', '?') with the constant recorder on (quick: S1,S3,S4,S5,S6,S8,S10,S11,S12,S13,S14,S15). "
+                "S5 constant recorder on, S6 connection dropped in mid-frame (Stop path), S7 'clear' in mid-recording, S8 test recording and motion recording starting on the same frame, S9 throttle cut and restart within one trigger, S10 every start failing while the header is written, S11 the temporary names of the next 100 ms already taken when the motion recording starts S12 output directory and constant-recordings folder reached through symbolic links S13 an upload backlog of 3000 finished recordings in both directories S14 a relative output-dir with a working directory other than the configuration directory, S15 an output directory whose name contains pattern characters ('[', ']', '*', '?') with the constant recorder on, S16 the third camera connection of one daemon run with the constant recorder on (quick: S1,S3,S4,S5,S6,S8,S10,S11,S12,S13,S14,S15,S16). "
                 "An uncrashed run counts the hook hits H - the file recorder's own hooks (after create, after header, before/after each frame write, before Close, between Close and rename, after rename, abort path) and hook calls inserted by build overlay into a copy of go-cptv's file writer "
                 "(between its three file creations; in Close after flush, header patch, gzip copy, gzip flush/close, buffered flush, before/after closing and deleting the scratch file); then for EVERY n in 0..H the child SIGKILLs itself at hit n. "
                 "Oracles: I1 - every *.cptv decodes header to EOF with the stock reader, checked synchronously at every hook inside the child, by a free-running observer goroutine, and by the parent on the directory as found; "
@@ -214,7 +216,7 @@ PROPS = {
         "level_note": "go-cptv and go-config are pinned dependencies and part of the system under observation.",
         "technique": "offline differential checker (decoded output vs reference pipeline)",
         "jobs": [{"pkg": "recorder-main", "test": "TestVerif_C11", "race": True, "shards": (16, 16), "timeout": (600, 3000), "require": ["connections", "frames_compared", "motion_files", "continuous_files", "mode_0_connections", "mode_1_connections", "mode_2_connections", "mode_3_connections", "throttle_resumed_files_checked", "predicted_motion_frames", "connections_after_a_reconnect", "connections_with_a_test_recording"]},
-                 {"pkg": "recorder-main", "test": "TestVerif_C11Warmup", "shards": (8, 16), "timeout": (300, 1200), "require": ["warmup_connections", "warmup_connections_with_limits", "clears_during_warmup"]},
+                 {"pkg": "recorder-main", "test": "TestVerif_C11Warmup", "shards": (8, 16), "timeout": (300, 1200), "require": ["warmup_connections", "warmup_connections_with_limits", "clears_during_warmup", "test_recordings_during_the_ffc_period"]},
                  {"pkg": "recorder-main", "test": "TestVerif_ConfigReread", "shards": (6, 12), "timeout": (300, 1200), "require": ["connections_after_a_thermal_motion_edit"]},
                  {"pkg": "recorder-main", "test": "TestVerif_C01Pipe", "shards": (8, 16), "timeout": (300, 1800), "require": ["pipeline_connections", "motion_files", "throttled_connections"]}],
     },
@@ -271,6 +273,7 @@ PROPS = {
             {"pkg": "recorder-main", "test": "TestVerif_C14Agree", "tag": "recorder", "shards": (1, 1), "timeout": (120, 120), "require": ["constant_sets_reported"]},
             {"pkg": "recorder-main", "test": "TestVerif_C14Pipe", "race": True, "shards": (16, 16), "timeout": (600, 3000), "require": ["connections_stalled_inside_a_prefix", "clears_with_failing_stop", "connections", "frames_verified_in_storage", "clear_markers", "recordings_ended_by_clear", "motion_files", "bad_frames_in_streams"]},
             {"pkg": "recorder-main", "test": "TestVerif_C11Warmup", "shards": (8, 16), "timeout": (300, 1200), "require": ["clears_during_warmup"]},
+            {"pkg": "recorder-main", "test": "TestVerif_C17Pipe", "shards": (8, 16), "timeout": (300, 1800), "require": ["runs_with_clear_markers", "pipeline_test_recordings"]},
         ],
     },
     "C15": {
@@ -319,7 +322,7 @@ PROPS = {
         "level_note": "Throttling independence is structural here (the continuous sink is never wrapped); the pipeline job checks it through main.go's wiring.",
         "technique": "offline trace checker + paired-execution comparator on monitor sinks",
         "jobs": [{"pkg": "motion", "test": "TestVerif_C17", "shards": (16, 16), "timeout": (300, 2400), "require": ["test_recordings_while_continuous_sink_fails", "continuous_sink_failures", "continuous_files", "test_recordings_completed", "test_recordings_overlapping_motion_recording"]},
-                 {"pkg": "recorder-main", "test": "TestVerif_C17Pipe", "shards": (8, 16), "timeout": (300, 1800), "require": ["runs_with_frozen_telemetry", "pipeline_runs", "pipeline_continuous_files", "pipeline_test_recordings", "pipeline_runs_after_a_reconnect", "pipeline_runs_with_low_disk"]}],
+                 {"pkg": "recorder-main", "test": "TestVerif_C17Pipe", "shards": (8, 16), "timeout": (300, 1800), "require": ["runs_with_frozen_telemetry", "pipeline_runs", "pipeline_continuous_files", "pipeline_test_recordings", "pipeline_runs_after_a_reconnect", "pipeline_runs_with_low_disk", "runs_with_clear_markers", "runs_with_files_shorter_than_a_millisecond"]}],
     },
     "C18": {
         "title": "thermal-writer stores every frame once, in order, in well-formed CPTR files",
@@ -352,7 +355,7 @@ PROPS = {
         "level_text": "Reference-model monitor on the real FrameLoop: every transition out of every reachable (implementation x model) state for capacities 1..8 is executed and judged, plus random long sequences up to capacity 64. Exploration is the right level: the ring is small and deterministic, so the BFS part is complete for those capacities while larger ones are sampled.",
         "level_note": "Trusts RefRing as the specification and that product states are captured by (currentIndex, bufferFull, oldest, min(n,N), mark age).",
         "technique": "reference-model runtime monitor (BFS + random operation sequences)",
-        "jobs": [{"pkg": "motion", "test": "TestVerif_C19", "shards": (4, 16), "timeout": (120, 900), "require": ["twin_ring_runs", "bfs_transitions", "random_ops", "sparse_observation_pairs", "random_observations"]}],
+        "jobs": [{"pkg": "motion", "test": "TestVerif_C19", "shards": (4, 16), "timeout": (120, 900), "require": ["twin_ring_runs", "bfs_transitions", "random_ops", "sparse_observation_pairs", "random_observations", "concurrent_recent_copies"]}],
     },
     "C20": {
         "title": "Log limiter drops only exact repeats inside the interval, nothing else",
